@@ -111,6 +111,8 @@ type H2Case struct {
 	// gun option `redirect: true` (see Redir; every Location stays on the https target: a redirect of an http2 gun to
 	// an http:// URL ends in the documented fatal condition)
 	Redirect bool `json:"redirect,omitempty"`
+	// gun option `httptrace` (see HTTPTrace)
+	HTTPTrace HTTPTrace `json:"httptrace"`
 }
 
 func genH2(t *rapid.T) H2Case {
@@ -145,6 +147,7 @@ func genH2(t *rapid.T) H2Case {
 			c.Handshakes = append(c.Handshakes, genHs(t, 3))
 		}
 	}
+	c.HTTPTrace = genHTTPTrace(t)
 	return c
 }
 
@@ -225,6 +228,7 @@ func checkH2(c H2Case, o *vf.Obs) error {
 	defer pand.Remove(out)
 	gun := map[string]any{"type": "http2", "target": tg.Addr(), "response-header-timeout": h2Timeout, "disable-keep-alives": !c.KeepAlive,
 		"redirect": c.Redirect}
+	c.HTTPTrace.apply(gun)
 	if c.Shared {
 		gun["shared-client"] = map[string]any{"enabled": true, "client-number": 1}
 	}
@@ -256,7 +260,7 @@ func checkH2(c H2Case, o *vf.Obs) error {
 			return nil
 		}
 	} else if runErr != nil {
-		return fmt.Errorf("the target speaks HTTP/2, yet the run was aborted: %v (handshakes %q, behaviours %+v)", runErr, tg.Handshakes(), c.Behs)
+		return fmt.Errorf("the target speaks HTTP/2, yet the run was aborted: %v (httptrace %+v, handshakes %q, behaviours %+v)", runErr, c.HTTPTrace, tg.Handshakes(), c.Behs)
 	}
 	lines, data, err := readPhout(out)
 	if err != nil {
@@ -348,6 +352,7 @@ func checkH2(c H2Case, o *vf.Obs) error {
 	o.ClassIf(c.Shared, "h2_shared_client")
 	o.ClassIf(c.KeepAlive, "h2_keep_alive")
 	o.ClassIf(c.Redirect, "redirect_option_on")
+	c.HTTPTrace.classes(o, lines)
 	rs.classes(o, "http2_gun")
 	if goodAfterBad {
 		o.NonTrivial()
@@ -370,6 +375,8 @@ type H2ScenCase struct {
 	Shots      int      `json:"shots"`
 	Handshakes []string `json:"handshakes"` // outcome of the handshake of the k-th attempted step
 	Behs       []Beh    `json:"behaviours"` // answer to the k-th attempted step, if its handshake succeeds
+	// gun option `httptrace` (see HTTPTrace)
+	HTTPTrace HTTPTrace `json:"httptrace"`
 }
 
 func genH2Scen(t *rapid.T) H2ScenCase {
@@ -401,6 +408,7 @@ func genH2Scen(t *rapid.T) H2ScenCase {
 		c.Handshakes = append(c.Handshakes, hs)
 		c.Behs = append(c.Behs, b)
 	}
+	c.HTTPTrace = genHTTPTrace(t)
 	return c
 }
 
@@ -448,9 +456,11 @@ func checkH2Scen(c H2ScenCase, o *vf.Obs) error {
 	defer pand.Remove(name)
 	out := pand.TempName("c19h2s", ".phout")
 	defer pand.Remove(out)
+	gun := map[string]any{"type": "http2/scenario", "target": tg.Addr(), "response-header-timeout": h2Timeout, "disable-keep-alives": true}
+	c.HTTPTrace.apply(gun)
 	pool := map[string]any{
 		"id":      "p",
-		"gun":     map[string]any{"type": "http2/scenario", "target": tg.Addr(), "response-header-timeout": h2Timeout, "disable-keep-alives": true},
+		"gun":     gun,
 		"ammo":    map[string]any{"type": "http/scenario", "file": name, "limit": c.Shots},
 		"result":  map[string]any{"type": "phout", "destination": out},
 		"rps":     map[string]any{"type": "once", "times": c.Shots + 5},
@@ -462,7 +472,7 @@ func checkH2Scen(c H2ScenCase, o *vf.Obs) error {
 	}
 	hss := tg.Handshakes()
 	if runErr != nil {
-		return fmt.Errorf("the target speaks HTTP/2, yet the run was aborted: %v (handshakes %q, behaviours %+v)\n%s", runErr, hss, c.Behs, yaml)
+		return fmt.Errorf("the target speaks HTTP/2, yet the run was aborted: %v (httptrace %+v, handshakes %q, behaviours %+v)\n%s", runErr, c.HTTPTrace, hss, c.Behs, yaml)
 	}
 	lines, data, err := readPhout(out)
 	if err != nil {
@@ -546,6 +556,7 @@ func checkH2Scen(c H2ScenCase, o *vf.Obs) error {
 		o.ClassIf(st.Method == "HEAD", "head_step")
 	}
 	o.ClassIf(goodAfterAlert, "h2_good_after_tls_alert")
+	c.HTTPTrace.classes(o, lines)
 	if goodAfterBad {
 		o.NonTrivial()
 	}
